@@ -140,6 +140,12 @@ def eopOf (d : Dialect) (o : Gen.Pratt.BinOp) : Option EOp :=
     | .RegexSearch, .sqlite => some .regexp
     | _, _ => none
 
+/-- a sub-expression outside the operator fragment, if the emitter gives it the strength of an atom -/
+def atomOf (d : Dialect) (e : Model.PExpr.PExpr) : Option ETree :=
+  match translate d e with
+  | some (s, k) => if otherExprStrength ≤ k then some (.leaf (.text s)) else none
+  | none => none
+
 open Model.PExpr in
 /-- operator tree of an RQ expression; sub-expressions outside the operator fragment become text atoms -/
 def toTree (d : Dialect) : PExpr → Option ETree
@@ -147,11 +153,11 @@ def toTree (d : Dialect) : PExpr → Option ETree
   | .un .Neg a => (toTree d a).map (.un .neg)
   | .un .Not a => (toTree d a).map (.un .not)
   | .bin o a b =>
-    if isEqNe o && (a.isNullLit || b.isNullLit) then (sqlPrint d (.bin o a b)).map fun s => .leaf (.text s)
+    if isEqNe o && (a.isNullLit || b.isNullLit) then none   -- IS NULL has strength 5: outside this fragment
     else match eopOf d o with
       | some e => do pure (.bin e (← toTree d a) (← toTree d b))
-      | none => (sqlPrint d (.bin o a b)).map fun s => .leaf (.text s)
-  | e => (sqlPrint d e).map fun s => .leaf (.text s)
+      | none => atomOf d (.bin o a b)
+  | e => atomOf d e
 
 def eopText : EOp → List Char
   | .bin b => b.text
